@@ -14,6 +14,7 @@ mod schemas;
 mod printing;
 mod timestamps;
 mod summary;
+mod languages;
 
 use std::collections::HashMap;
 
@@ -66,6 +67,7 @@ fn main() {
         "printing" => printing::main(&args),
         "timestamps" => timestamps::main(&args),
         "summary" => summary::main(&args),
+        "languages" => languages::main(&args),
         "summary-random" => summary::random_main(&args),
         "repr" => {
             // representability facts (reference encoder) for the characters the bounded models use
